@@ -1868,4 +1868,33 @@ def rule_position_token(prog):
                 out.add(b["d"], "no branch that inspects comment tokens answers with `no proposals`", False, c.loc(iff["sp"]),
                         "a test on comment tokens decides that nothing is proposed: the range of a comment token includes its line break and "
                         "the classified position is one in front of the cursor, so column 0 below any comment line gets no proposals", ("comment", "suppress"))
+    # the kind of the token *in front of* an identifier decides what it names (`:` / `of` -> a type, `proc` / `type` -> a global
+    # declaration): a predicate over (tokens, index) that matches the kind of a neighbouring token against TokenType variants must pick
+    # that neighbour comment-blind - a comment may stand in every token gap.  Picked by position alone (`index - 1`, `checked_sub(1)`,
+    # `[..index].last()`) with no comment test anywhere in the function, `x: // c⏎ t` names something else than `x: t`
+    for b in c.bodies:
+        if not b["p"].startswith("lsp4spl::features") or "/tests" in c.file_of(b["sp"]) or b["k"] != "fn":
+            continue
+        pts = [c.tstr(p_.get("bt")) for p_ in b["params"] if p_.get("k") == "Binding"]
+        if not (any("[spl_frontend::tokens::Token]" in t_ for t_ in pts) and any(t_ == "usize" for t_ in pts)):
+            continue
+        if c.tstr(b["body"].get("t")) != "bool":
+            continue
+        kinds = set()
+        for x in hir.nodes_deep(prog, b["body"], 1, crate=c, values=True):
+            pats = [a_["pat"] for a_ in x["arms"]] if x.get("k") == "Match" else [x["pat"]] if x.get("k") == "LetExpr" else []
+            for pt in pats:
+                for v_ in hir.pat_variants_all(pt):
+                    if v_.startswith("spl_frontend::tokens::TokenType::"):
+                        kinds.add(last(v_))
+        if not (kinds - {"Comment"}):
+            continue
+        blind = tests_comment(b["body"], c)
+        positional = any((x.get("k") == "MethodCall" and x["m"] in ("checked_sub", "last", "get", "nth", "nth_back", "next_back")) or
+                         (x.get("k") == "Binary" and x["op"] == "-" and hir.lit_value(hir.strip(x["r"])) is not None) or x.get("k") == "Index"
+                         for x in hir.nodes_deep(prog, b["body"], 1, crate=c, values=True))
+        out.add(b["d"], "a neighbouring token that classifies an identifier is picked comment-blind", True if blind else (False if positional else None),
+                c.loc(b["sp"]), "the function decides by the kind of a token next to `index` (%s) and %s" % (
+                    sorted(kinds - {"Comment"})[:6], "skips comments on the way" if blind else
+                    "takes it by position with no test for comments: a comment between the two tokens changes what the identifier names"), ("comment", "prev"))
     return out
